@@ -29,11 +29,21 @@ func checkC11(c *Ctx) {
 	fqn := c.fn("", "scope", "fullyQualifiedName")
 	keyFn := c.fn("", "", "KeyForPrefixedStringMap")
 	newSnap := c.fn("", "", "newSnapshot")
-	if snapFn == nil || fqn == nil || keyFn == nil || newSnap == nil || len(snapFn.AnonFuncs) != 1 {
-		c.missing("O1 snapshot-entries", "tally.scope.Snapshot (with one callback) / fullyQualifiedName / KeyForPrefixedStringMap / newSnapshot")
+	if snapFn == nil || fqn == nil || keyFn == nil || newSnap == nil {
+		c.missing("O1 snapshot-entries", "tally.scope.Snapshot / fullyQualifiedName / KeyForPrefixedStringMap / newSnapshot")
 		return
 	}
-	cb := snapFn.AnonFuncs[0]
+	// the per-scope callback: the closure of Snapshot that takes a *scope
+	var cb *ssa.Function
+	for _, f := range snapFn.AnonFuncs {
+		if len(f.Params) == 1 && deref(f.Params[0].Type()) == types.Type(c.named("", "scope")) {
+			cb = f
+		}
+	}
+	if cb == nil {
+		c.bad("O1 snapshot-entries", c.fnKey(snapFn), snapFn.Pos(), "Snapshot does not visit the registered scopes with a per-scope callback")
+		return
+	}
 	c.sawFunc(c.fnKey(snapFn))
 	c.sawFunc(c.fnKey(cb))
 	ss := ssa.Value(cb.Params[0])
